@@ -34,7 +34,7 @@ Plan generate(uint64_t seed, uint64_t run, bool thorough) {
     p.set("n", u < 0.5 ? r.range(0, 7) : r.range(4, thorough ? 120 : 50), 0);
     p.set("m", u < 0.5 ? r.range(1, 7) : r.range(2, thorough ? 120 : 50), 1);
     p.set("k", r.range(1, u < 0.5 ? 7 : 40), 1);
-    p.set("square", r.range(0, 1), 0);
+    p.set("square", r.range(0, 1), 0); p.set("indep_cols", r.range(0, 1), 0);
     p.set("density", r.range(5, 70), 5);
     p.set("mseed", (long)(r.next() >> 16), 0); p.set("pseed", (long)(r.next() >> 16), 0); p.set("vseed", (long)(r.next() >> 16), 0);
     p.set("alpha", r.range(-2, 3), 0); p.set("beta", r.range(-2, 2), 0);
@@ -74,7 +74,10 @@ Result execute(const Plan &p) {
     gen::Csr B = gen::make_rect(m, kk, (uint64_t)p.get("mseed") + 1, (int)p.get("density"), true, true);
     if (square) for (long i = 0; i < n; ++i) { bool has = false; for (ptrdiff_t j = A.ptr[i]; j < A.ptr[i+1]; ++j) if (A.col[j] == i) has = true; (void)has; }
     sim::rng pr((uint64_t)p.get("pseed"), "partition");
-    std::vector<long> rp = draw_partition(pr, n, R), cp = square ? rp : draw_partition(pr, m, R), kp = draw_partition(pr, kk, R);
+    // square matrices: conformal row/column distribution (system matrices) or, half of the time, independent ones (permutations,
+    // transfer-like operators that happen to be square)
+    bool conformal = square && !(p.get("indep_cols", 0));
+    std::vector<long> rp = draw_partition(pr, n, R), cp = conformal ? rp : draw_partition(pr, m, R), kp = draw_partition(pr, kk, R);
     std::vector<double> x2 = gen::make_vector(m, (uint64_t)p.get("vseed") + 7, 1), x3 = gen::make_vector(m, (uint64_t)p.get("vseed") + 8, 1);
     std::vector<double> x = gen::make_vector(m, (uint64_t)p.get("vseed"), 1), y0 = gen::make_vector(n, (uint64_t)p.get("vseed") + 1, 1), z0 = gen::make_vector(n, (uint64_t)p.get("vseed") + 2, 1);
     double alpha = (double)p.get("alpha"), beta = (double)p.get("beta");
@@ -116,13 +119,13 @@ Result execute(const Plan &p) {
         // copy into another backend (float values)
         { amgcl::mpi::distributed_matrix<amgcl::backend::builtin<float> > dF(dA); add_strip(gotF, *dF.local(), *dF.remote(), r0, c0); }
         // spectral radius (square matrices distributed conformally)
-        if (square && n > 0) {
+        if (conformal && n > 0) {
             gen::Csr Ad = strip(A, r0, r1);
             // make sure every row has a diagonal entry for the scaled variant
             gersh[rank] = be::spectral_radius<false>(dA, 0);
             power[rank] = be::spectral_radius<false>(dA, (int)p.get("power_iters"));
         }
-        if (square && n > 0) {
+        if (conformal && n > 0) {
             gen::Csr Ds = strip(Adg, r0, r1);
             DM dD(comm, std::make_tuple((size_t)Ds.n, std::ref(Ds.ptr), std::ref(Ds.col), std::ref(Ds.val)), c1 - c0);
             gshs[rank] = be::spectral_radius<true>(dD, 0);
@@ -193,7 +196,7 @@ Result execute(const Plan &p) {
             if (rr[i] != z0[i] - ax3) { res.fail(sig("serial-equivalence", "residual", fmt("row %ld: %.17g, serial %.17g", i, rr[i], z0[i] - ax3))); break; } }
         double dot = 0; for (long i = 0; i < n; ++i) dot += y0[i] * z0[i];
         for (int r = 0; r < R; ++r) if (ip[r] != dot) { res.fail(sig("collective-scalars", "inner-product", fmt("rank %d: %.17g, serial %.17g", r, ip[r], dot))); break; }
-        if (square && n > 0) {
+        if (conformal && n > 0) {
             double want = 0; for (long i = 0; i < n; ++i) { double s = 0; for (ptrdiff_t j = A.ptr[i]; j < A.ptr[i+1]; ++j) s += std::fabs(A.val[j]); want = std::max(want, s); }
             double wants = 0; for (long i = 0; i < n; ++i) { double sm = 0, dia = 1; for (ptrdiff_t j = Adg.ptr[i]; j < Adg.ptr[i+1]; ++j) { sm += std::fabs(Adg.val[j]); if (Adg.col[j] == i) dia = Adg.val[j]; } wants = std::max(wants, sm * std::fabs(1 / dia)); }
             for (int r = 0; r < R; ++r) if (gshs[r] != wants) { res.fail(sig("collective-scalars", "gershgorin-scaled", fmt("rank %d: %.17g, serial %.17g", r, gshs[r], wants))); break; }
@@ -210,7 +213,7 @@ Result execute(const Plan &p) {
     s.set("ranks", R); s.set("n", n); s.set("m", m); s.set("k", kk); s.set("nt_per_rank", mc.nt);
     js::Value jp = js::Value::array(); for (int r = 0; r <= R; ++r) jp.push(rp[r]); s.set("row_partition", jp);
     js::Value jc = js::Value::array(); for (int r = 0; r <= R; ++r) jc.push(cp[r]); s.set("col_partition", jc);
-    s.set("late_send_read", (long)mc.late_send_read); s.set("recv_poison", (long)mc.recv_poison); s.set("rendezvous", (long)mc.rendezvous); s.set("strategy", sim::strategy_name(p.sched.strategy));
+    s.set("square", (long)square); s.set("conformal_distribution", (long)conformal); s.set("late_send_read", (long)mc.late_send_read); s.set("recv_poison", (long)mc.recv_poison); s.set("rendezvous", (long)mc.rendezvous); s.set("strategy", sim::strategy_name(p.sched.strategy));
     s.set("messages", (unsigned long long)out.stats.messages); s.set("collectives", (unsigned long long)out.stats.collectives);
     res.sample = s;
     return res;
